@@ -17,16 +17,17 @@ Qed.
 Lemma filter_map_len : forall (A B : Type) (p : B -> bool) (f : A -> B) l, length (filter p (map f l)) = length (filter (fun x => p (f x)) l).
 Proof. intros A B p f. induction l as [|x r IH]; [reflexivity|]. cbn [map filter]. destruct (p (f x)); cbn [length]; rewrite IH; reflexivity. Qed.
 
-(* on tables of (word list, payload) *)
-Theorem trie_bytes_size_of_table : forall (array : bool) cfg n V (t : list (list Z * pb)),
-  (2 <= n)%nat -> 0 <= V < 2 ^ 32 -> 0 <= cfg ->
+(* on tables of (word list, payload): the level lists have one record per key of that length *)
+Lemma built_levels_of_table : forall n V (t : list (list Z * pb)),
+  (2 <= n)%nat -> 0 <= V < 2 ^ 32 ->
   table_ok pb t -> (forall w, In [w] (map fst t) <-> 0 <= w < V) ->
   Forall (fun kv => Forall (fun w => 0 <= w <= V) (fst kv) /\ pv_ok (snd kv) /\ (length (fst kv) <= n)%nat) t ->
   Z.of_nat (key_words t) < 2 ^ 57 ->
-  Z.of_nat (length (trie_bytes array cfg (mk_trie array cfg (built pb n (of_table pb (0, 0) t))))) =
-  trie_size array cfg (map (fun j => Z.of_nat (length (filter (has_len j) (map fst t)))) (seq 1 n)).
+  let L := built pb n (of_table pb (0, 0) t) in
+  Lok V L /\ length L = n /\
+  map (fun l : list (rec pb) => Z.of_nat (length l)) L = map (fun j => Z.of_nat (length (filter (has_len j) (map fst t)))) (seq 1 n).
 Proof.
-  intros array cfg n V t Hn HV Hcfg Hok Huni Hall Hsize.
+  intros n V t Hn HV Hok Huni Hall Hsize L.
   destruct (lookup_of_table pb (0, 0) t Hok) as [Hs Hl].
   destruct (of_table_dense pb (0, 0) t V Hok Huni) as [Hd Hlen].
   rewrite Z.max_r in Hlen by lia.
@@ -36,11 +37,24 @@ Proof.
   assert (Hsz57 : forall j, Z.of_nat (length (lev pb j F)) < 2 ^ 57) by (intros j; pose proof (lev_size F j); lia).
   pose proof (built_Lok n F V Hdep ltac:(apply sorted_from_is_fsorted; exact Hs) Hv HV Hsz57) as HL.
   pose proof (L_length n F Hdep) as Elen.
-  rewrite (trie_bytes_size array cfg (built pb n F) V Hcfg ltac:(lia) HL).
-  f_equal.
-  rewrite (map_nth_seq _ _ (fun l : list (rec pb) => Z.of_nat (length l)) [] (built pb n F)). rewrite Elen.
+  split; [exact HL|]. split; [exact Elen|].
+  unfold L. rewrite (map_nth_seq _ _ (fun l : list (rec pb) => Z.of_nat (length l)) [] (built pb n F)). rewrite Elen.
   rewrite <- seq_shift, map_map. apply map_ext. intros j.
   rewrite (Lj_len n F Hdep j). unfold F. rewrite (level_count pb (0, 0) t j Hok). reflexivity.
+Qed.
+
+Theorem trie_bytes_size_of_table : forall (array : bool) cfg n V (t : list (list Z * pb)),
+  (2 <= n)%nat -> 0 <= V < 2 ^ 32 -> 0 <= cfg ->
+  table_ok pb t -> (forall w, In [w] (map fst t) <-> 0 <= w < V) ->
+  Forall (fun kv => Forall (fun w => 0 <= w <= V) (fst kv) /\ pv_ok (snd kv) /\ (length (fst kv) <= n)%nat) t ->
+  Z.of_nat (key_words t) < 2 ^ 57 ->
+  Z.of_nat (length (trie_bytes array cfg (mk_trie array cfg (built pb n (of_table pb (0, 0) t))))) =
+  trie_size array cfg (map (fun j => Z.of_nat (length (filter (has_len j) (map fst t)))) (seq 1 n)).
+Proof.
+  intros array cfg n V t Hn HV Hcfg Hok Huni Hall Hsize.
+  destruct (built_levels_of_table n V t Hn HV Hok Huni Hall Hsize) as [HL [Elen Emap]].
+  assert (H2 : (2 <= length (built pb n (of_table pb (0%Z, 0%Z) t)))%nat) by (rewrite Elen; exact Hn).
+  rewrite (trie_bytes_size array cfg _ V Hcfg H2 HL). rewrite Emap. reflexivity.
 Qed.
 
 (* on the tables of the language-model development *)
@@ -66,6 +80,29 @@ Section SizeEnd.
   Proof.
     intros j. rewrite conv_keys, map_map, filter_map_len. unfold order_entries. f_equal.
     apply filter_ext. intros ke. unfold has_len, zkey. rewrite map_length. reflexivity.
+  Qed.
+
+  Lemma conv_hyps : table_ok pb (conv pz t) /\ (forall w, In [w] (map fst (conv pz t)) <-> 0 <= w < V) /\
+    Forall (fun kv => Forall (fun w => 0 <= w <= V) (fst kv) /\ pv_ok (snd kv) /\ (length (fst kv) <= n)%nat) (conv pz t) /\
+    Z.of_nat (key_words (conv pz t)) < 2 ^ 57.
+  Proof.
+    assert (H1 : table_ok pb (conv pz t)) by (eapply conv_table_ok; eassumption).
+    assert (H2 : forall w, In [w] (map fst (conv pz t)) <-> 0 <= w < V) by (eapply conv_dense; eassumption).
+    assert (H3 : Forall (fun kv => Forall (fun w => 0 <= w <= V) (fst kv) /\ pv_ok (snd kv) /\ (length (fst kv) <= n)%nat) (conv pz t))
+      by (eapply conv_bounds; eassumption).
+    assert (H4 : (key_words (conv pz t) <= n * length t)%nat) by (eapply key_words_conv; eassumption).
+    split; [exact H1|]. split; [exact H2|]. split; [exact H3|]. lia.
+  Qed.
+
+  (* the level lists of the model's trie: n levels, level j - 1 with as many records as the header's count of order j *)
+  Lemma trie_levels_counts : length (trie_levels n t pz) = n /\
+    map (fun l : list (rec pb) => Z.of_nat (length l)) (trie_levels n t pz) = trie_counts n t.
+  Proof.
+    destruct conv_hyps as [H1 [H2 [H3 H4]]].
+    destruct (built_levels_of_table n V (conv pz t) Hn HV H1 H2 H3 H4) as [_ [Elen Emap]].
+    split; [exact Elen|].
+    change (trie_levels n t pz) with (built pb n (of_table pb (0, 0) (conv pz t))). rewrite Emap.
+    unfold trie_counts. apply map_ext. intros j. rewrite counts_conv. reflexivity.
   Qed.
 
   Theorem trie_image_size : Z.of_nat (length (trie_image array cfg n t pz)) = trie_size array cfg (trie_counts n t).
